@@ -1636,6 +1636,26 @@ fn main() {
             low.push(format!("kdf:{k} (memory {mem}, stored {stored})"));
         }
     }
+    // structs that keep derived state (a field rebuilt by accumulation, or more than one field): the
+    // behaviour battery must have probed them, and the model's verdict on their decoder is recorded
+    for q in ["accfields", "multifield"] {
+        let listed = ctx.drv.ask(q);
+        ctx.rep.note(format!("{q}: {listed}"));
+        for item in listed.split(',').filter(|s| !s.is_empty()) {
+            let st = item.split(['.', '(']).next().unwrap_or("").to_string();
+            if !names.contains(&st) {
+                continue; // (a struct not reachable by the values part would already have failed above)
+            }
+            if ctx.rep.histogram.get(&format!("battery:{st}")).cloned().unwrap_or(0) < 20 {
+                low.push(format!("battery:{st} ({item})"));
+            }
+            let verdict = ctx.drv.ask(&format!("decoder {st}"));
+            ctx.rep.count(&format!("decoder:{st}:{}", verdict.replace(' ', "/")));
+            if !verdict.starts_with("ok ") {
+                ctx.model_fail(&format!("decoder-drops-derived-field:{st}"), json!({"struct": st, "field": item}), "ok: every field rebuilt on every path".into(), verdict);
+            }
+        }
+    }
     if !low.is_empty() {
         ctx.model_fail("coverage-floor", json!({"below_floor": low}), "every struct and Kdf variant ≥ 20 cases".into(), "below floor".into());
     }
